@@ -306,6 +306,39 @@ fn probe_marker_order() -> Result<(), Failure> {
         .map_err(|f| f.sig("marker:order-depends-on-type-ids"))
 }
 
+pub const KEEP_FIRST: &str = "c17:keep-first-among-same-shape-versions";
+
+/// Known finding: two same-path definitions of equal wire shape and different source (here: where the Box
+/// sits) are merged into the item of whichever entry comes first.
+fn probe_keep_first() -> Result<(), Failure> {
+    use crate::program::*;
+    let un = |t: Ty| FieldDef { name: None, ty: t, compact_attr: false, docs: vec![] };
+    let foo = Def { path: vec!["krate".into(), "Foo".into()], params: vec![], docs: vec![], body: Body::Struct(Fields::Unnamed(vec![un(Ty::Prim(Prim::U16))])), config_inner: None };
+    let b = || Ty::Ptr(PtrKind::Box, Box::new(Ty::Def(0, vec![])));
+    let v = |f: Vec<FieldDef>| Def { path: vec!["krate".into(), "FooX".into()], params: vec![], docs: vec![], body: Body::Struct(Fields::Unnamed(f)), config_inner: None };
+    let prog = Program {
+        name_style: 0,
+        defs: vec![foo, v(vec![un(b()), un(Ty::Def(0, vec![]))]), v(vec![un(Ty::Def(0, vec![])), un(b())])],
+        roots: vec![Ty::Def(0, vec![]), Ty::Def(1, vec![]), Ty::Def(2, vec![])],
+    };
+    if prog.same_shape_versions_with_different_surface().is_empty() {
+        return Err(Failure::infra("the probe program is not recognised as ambiguous"));
+    }
+    let low = crate::lower::lower(&prog);
+    let n = low.registry.types.len() as u32;
+    let perm: Vec<u32> = (0..n).map(|i| n - 1 - i).collect();
+    let text = prog.to_text();
+    let decoded = || json!({"program": text, "perm": perm});
+    let mut st = Stats::default();
+    permutation_clauses(&low.registry, &perm, &SettingsSpec::default(), &mut st, &decoded).map_err(|f| {
+        if f.signature == "c17:order-dependent-output" {
+            f.sig(KEEP_FIRST)
+        } else {
+            f
+        }
+    })
+}
+
 /// Regression probe (seeded change C17c): two mutually recursive paths, each in two versions; the outer
 /// types differ in a field after the recursive one, the inner types only through the outer ones. Every
 /// relative order of the four named entries, and the restrictions to the two outer / two inner types.
@@ -393,6 +426,11 @@ impl Property for C17 {
                 run: Box::new(probe_marker_order),
             },
             Probe {
+                signature: KEEP_FIRST,
+                what: "krate::FooX(Box<Foo>, Foo) and krate::FooX(Foo, Box<Foo>): which one is emitted depends on the registry order",
+                run: Box::new(probe_keep_first),
+            },
+            Probe {
                 signature: "regress:two-version-recursive-group",
                 what: "tree::Node{children: Vec<Leaf>, tag: u8|u16} / tree::Leaf{parent: Option<Box<Node>>, value: u32} in two versions, all arrangements of the four entries",
                 run: Box::new(probe_two_version_recursive_group),
@@ -447,13 +485,26 @@ impl Property for C17 {
                 let mut spec = SettingsSpec::default();
                 spec.root = pick_root(&mut t, reg);
                 spec.global_derives = vec!["Debug".into(), "Clone".into()];
-                // two versions of one definition may have the same shape but different doc comments; the
-                // single item kept for them takes the docs of the first entry, which is inherent to
-                // keep-first and not a property of the type graph: docs are switched off for that stratum
-                if case.gen.labels.contains("two_versions") {
-                    spec.docs = false;
-                    stats.label("two_versions_docs_off");
+                // Same-path definitions that the type graph cannot tell apart but whose source differs (docs, Box
+                // placement, an argument without influence): the single item kept for them is necessarily chosen by
+                // registry order. Known finding c17:keep-first-among-same-shape-versions; decided on the SOURCE
+                // program, independently of the generator.
+                let ambiguous = !case.gen.prog.same_shape_versions_with_different_surface().is_empty();
+                if ambiguous {
+                    stats.label("same_shape_versions_with_different_surface");
                 }
+                let resign = |f: Failure| -> Failure {
+                    if ambiguous
+                        && matches!(
+                            f.signature.as_str(),
+                            "c17:order-dependent-output" | "c17:order-dependent-output-after-dedup" | "c17:restriction-item"
+                        )
+                    {
+                        f.sig(KEEP_FIRST)
+                    } else {
+                        f
+                    }
+                };
                 for l in ["near_miss_version", "near_miss_group_version", "near_miss_group_of_2_or_more", "recursion", "bit_store_or_order_param", "qualified_type_names", "compact_unit"] {
                     if case.gen.labels.contains(l) {
                         stats.label(l);
@@ -468,7 +519,7 @@ impl Property for C17 {
                 for _ in 0..3 {
                     let perm = gen_perm(&mut t, reg.types.len());
                     let decoded = || json!({"program": text, "settings": spec.to_json(), "registry": registry_json(reg), "perm": perm});
-                    permutation_clauses(reg, &perm, &spec, stats, &decoded)?;
+                    permutation_clauses(reg, &perm, &spec, stats, &decoded).map_err(resign)?;
                     let identity = perm.iter().enumerate().all(|(i, p)| i as u32 == *p);
                     if !identity && multi_inst {
                         stats.nontrivial(hash_str(&format!("{}{:?}", registry_json(reg), perm)));
@@ -479,7 +530,7 @@ impl Property for C17 {
                     let n = 1 + t.choose(4);
                     let roots: BTreeSet<u32> = (0..n).map(|_| t.choose(reg.types.len()) as u32).collect();
                     let decoded = || json!({"program": text, "settings": spec.to_json(), "registry": registry_json(reg), "roots": roots});
-                    if restriction_clauses(reg, &roots, &spec, true, stats, &decoded)? {
+                    if restriction_clauses(reg, &roots, &spec, true, stats, &decoded).map_err(resign)? {
                         stats.nontrivial(hash_str(&format!("{}{:?}", registry_json(reg), roots)));
                         stats.label("restriction_dropping_types");
                     }
